@@ -559,7 +559,17 @@ func runFuzz(t *toks, out *bufio.Writer) {
 		kind := r.below(4)
 		length := []int{0, 1, 2, 255, 256, 4096, 65535, 65536}[r.below(8)]
 		prefixes := []uint8{0xDD, 0xFD, 0xCB, 0xED, 0xDD, 0xFD, 0x76, 0x00, 0xFF, 0xC7}
+		// one scenario in eight fills the whole memory from a tiny alphabet (a single prefix byte, DD/FD mixes, ED or CB
+		// pages of one opcode): prefix chains that never end, the same unsupported opcode everywhere
+		uniform := r.below(8) == 0
+		alphabet := [][]uint8{{0xDD}, {0xFD}, {0xDD, 0xFD}, {0xED}, {0xCB}, {0xDD, 0xCB}, {0xFD, 0xCB, 0xFF}, {0xED, 0x70}, {0x76}, {0xFF}, {0x00}}[r.below(11)]
 		fillByte := func(a int) uint8 {
+			if uniform {
+				if len(alphabet) == 2 && alphabet[0] == 0xED {
+					return alphabet[a%2]
+				}
+				return alphabet[r.below(len(alphabet))]
+			}
 			if r.below(3) == 0 {
 				return prefixes[r.below(len(prefixes))]
 			}
